@@ -35,12 +35,16 @@ def run_campaign(modname, known, seed, nprocs, runs, max_len=64, timeout=3600):
             cmd = [sys.executable, ENTRY, modname, out, kp, f"-runs={runs}", f"-seed={s}", f"-max_len={max_len}", "-print_final_stats=1", f"-artifact_prefix={out}/", corpus]
             procs.append((out, subprocess.Popen(cmd, stdout=subprocess.DEVNULL, stderr=subprocess.PIPE, env=env, cwd=out)))
         for out, p in procs:
+            timed_out = False
             try:
                 _, err = p.communicate(timeout=timeout)
             except subprocess.TimeoutExpired:
+                # a time budget hit is inconclusive, never a verdict: keep what the process recorded so far
                 p.kill()
                 _, err = p.communicate()
-            if p.returncode not in (0,):
+                timed_out = True
+                total["processes_stopped_by_time_budget"] = total.get("processes_stopped_by_time_budget", 0) + 1
+            if p.returncode not in (0,) and not timed_out:
                 tail = err.decode(errors="replace")[-600:]
                 raise core.HarnessError(f"fuzz process failed rc={p.returncode}: {tail}")
             for sf in glob.glob(os.path.join(out, "stats-*.json")):
